@@ -113,7 +113,10 @@ struct Line(String);
 impl WithPurl for Line {
     fn ok<T: Flavor>(&mut self, _f: &'static str, p: &purl::GenericPurl<T>, _acc: &mut Acc) {
         let o = observe(p);
-        self.0 = format!("OK {}|{:?}|{}|{:?}|{:?}|{:?}|{}", o.ty, o.ns, o.name, o.version, o.quals, o.subpath, p.to_string());
+        let text = p.to_string();
+        // "the string form of that PURL is accepted by the parser and yields those same field values"
+        let back = <String as PFlavor>::parse(&text).map(|q| format!("{:?}", observe(&q))).unwrap_or_else(|e| format!("refused: {e}"));
+        self.0 = format!("OK {}|{:?}|{}|{:?}|{:?}|{:?}|{}|parsed back: {}", o.ty, o.ns, o.name, o.version, o.quals, o.subpath, text, back);
     }
     fn refused(&mut self, _f: &'static str, class: Option<ErrClass>, text: &str, _acc: &mut Acc) {
         self.0 = format!("ERR {:?} {}", class.map(|c| c.name()), text);
@@ -360,58 +363,94 @@ pub fn alphabet(tier: Tier) -> Vec<Op> {
     ops
 }
 
-/// `only`: property whose operations are judged (the operations of the other kinds still take part
-/// as predecessors).
+/// Operations that displace whatever single-entry memory an implementation might keep (one of each
+/// kind, with values that occur nowhere else in the alphabet).
+pub fn flush_ops() -> Vec<Op> {
+    vec![
+        Op::Parse(0, "pkg:zz-f/zf/zn@9?zq=zv#zs".to_owned()),
+        Op::Parse(2, "pkg:pypi/zz-flush".to_owned()),
+        Op::Parse(2, "pkg:nuget/zg/zz.flush".to_owned()),
+        Op::ChecksumText("zf:00".to_owned()),
+        Op::TypeFromStr("zz-none".to_owned()),
+    ]
+}
+
+fn solo(op: &Op) -> String {
+    let op = op.clone();
+    std::thread::spawn(move || run_op(&op, &mut Acc::new())).join().unwrap_or_else(|_| "THREAD PANIC".to_owned())
+}
+
+fn is_judged(prop: &str, op: &Op) -> bool {
+    match prop {
+        // the package-type rules, from the parser and from the builder
+        "C08" => matches!(op, Op::Parse(2, _) | Op::Build("PackageType", _)),
+        _ => op.prop() == prop,
+    }
+}
+
+/// `prop`: property whose operations are judged (the operations of the other kinds still take part
+/// as predecessors). Every outcome is compared with the outcome of the same operation executed
+/// alone in a fresh thread. Per judged operation y one job (a thread of its own):
+///   for every x:  F ; x ; y      (F = the flush operations)
+/// and both x (if judged) and y are compared with their solo outcomes — so every judged operation is
+/// seen directly after every operation, in both orders, once with displaced and once with
+/// accumulated hidden state.
 pub fn explore(prop: &'static str, tier: Tier) -> (Acc, Value) {
     let ops = alphabet(tier);
     let n = ops.len();
-    let judged: Vec<usize> = (0..n)
-        .filter(|i| match prop {
-            // the package-type rules, from the parser and from the builder
-            "C08" => matches!(&ops[*i], Op::Parse(2, _) | Op::Build("PackageType", _)),
-            _ => ops[*i].prop() == prop,
-        })
-        .collect();
-    // depth 2: every judged y after every x
-    // (every job runs in a thread of its own, so that thread-local state starts fresh and a replay
-    // of the recorded histories meets the same conditions)
+    let judged: Vec<usize> = (0..n).filter(|i| is_judged(prop, &ops[*i])).collect();
+    let flush = flush_ops();
+    let base: Vec<String> = {
+        let out = std::sync::Mutex::new(vec![String::new(); n]);
+        par_items(n, threads(), |i, _| {
+            let o = solo(&ops[i]);
+            out.lock().unwrap()[i] = o;
+        });
+        out.into_inner().unwrap()
+    };
+    let tier_name = if tier == Tier::Quick { "quick" } else { "thorough" };
     let mut acc = par_items(judged.len(), threads(), |ji, acc| std::thread::scope(|sc| { sc.spawn(|| {
-        let y = &ops[judged[ji]];
-        let mut base: Option<(usize, String)> = None;
+        let yi = judged[ji];
+        let y = &ops[yi];
         for (xi, x) in ops.iter().enumerate() {
-            let _ = run_op(x, acc);
+            for f in &flush {
+                let _ = run_op(f, acc);
+            }
+            let ox = run_op(x, acc);
+            if ox != base[xi] && is_judged(prop, x) {
+                let mut h: Vec<Value> = flush.iter().map(Op::to_json).collect();
+                h.insert(0, y.to_json());
+                acc.violate(Violation {
+                    prop,
+                    kind: "outcome-depends-on-history".into(),
+                    case: json!({"engine": "history", "history": h, "op": x.to_json(), "prefix": {"tier": tier_name, "job": yi, "upto": xi, "which": "x"}}),
+                    detail: format!("alone: {}; after the history: {ox}", base[xi]),
+                });
+            }
             let o = run_op(y, acc);
             acc.evals += 1;
             acc.nontrivial += 1;
             acc.sig(&(o.starts_with("OK"), o.len().min(40)));
-            match &base {
-                None => base = Some((xi, o)),
-                Some((bi, b)) => {
-                    if *b != o {
-                        acc.violate(Violation {
-                            prop,
-                            kind: "outcome-depends-on-history".into(),
-                            // (the exploration interleaves: x0 y x1 y ... xk y; the replay first tries the two
-                            // short histories and falls back to the whole prefix)
-                            case: json!({"engine": "history", "history_a": [ops[*bi].to_json()], "history_b": [x.to_json()], "op": y.to_json(), "prefix": {"tier": if tier == Tier::Quick { "quick" } else { "thorough" }, "upto": xi}}),
-                            detail: format!("after history a: {b}; after history b: {o}"),
-                        });
-                    }
-                },
+            if o != base[yi] {
+                let mut h: Vec<Value> = flush.iter().map(Op::to_json).collect();
+                h.push(x.to_json());
+                acc.violate(Violation {
+                    prop,
+                    kind: "outcome-depends-on-history".into(),
+                    case: json!({"engine": "history", "history": h, "op": y.to_json(), "prefix": {"tier": tier_name, "job": yi, "upto": xi, "which": "y"}}),
+                    detail: format!("alone: {}; after the history: {o}", base[yi]),
+                });
             }
         }
     }).join().expect("history job"); }));
     let pairs = acc.evals;
-    // depth 3 over a sub-alphabet (every k-th operation, all judged ones as y)
+    // depth 3 over a sub-alphabet (every k-th operation), no flushing: x1 ; x2 ; y
     let (step, ystep) = if tier == Tier::Quick { (41, 7) } else { (13, 3) };
     let sub: Vec<usize> = (0..n).filter(|i| i % step == 0).collect();
     let judged3: Vec<usize> = judged.iter().copied().enumerate().filter(|(k, _)| k % ystep == 0).map(|(_, i)| i).collect();
     let a3 = par_items(judged3.len(), threads(), |ji, acc| std::thread::scope(|sc| { sc.spawn(|| {
-        let y = &ops[judged3[ji]];
-        let base = {
-            let _ = run_op(&ops[sub[0]], acc);
-            run_op(y, acc)
-        };
+        let yi = judged3[ji];
+        let y = &ops[yi];
         for x1 in &sub {
             for x2 in &sub {
                 let _ = run_op(&ops[*x1], acc);
@@ -419,12 +458,12 @@ pub fn explore(prop: &'static str, tier: Tier) -> (Acc, Value) {
                 let o = run_op(y, acc);
                 acc.evals += 1;
                 acc.nontrivial += 1;
-                if o != base {
+                if o != base[yi] {
                     acc.violate(Violation {
                         prop,
                         kind: "outcome-depends-on-history".into(),
-                        case: json!({"engine": "history", "history_a": [ops[sub[0]].to_json()], "history_b": [ops[*x1].to_json(), ops[*x2].to_json()], "op": y.to_json()}),
-                        detail: format!("after history a: {base}; after history b: {o}"),
+                        case: json!({"engine": "history", "history": [ops[*x1].to_json(), ops[*x2].to_json()], "op": y.to_json()}),
+                        detail: format!("alone: {}; after the history: {o}", base[yi]),
                     });
                 }
             }
@@ -432,8 +471,8 @@ pub fn explore(prop: &'static str, tier: Tier) -> (Acc, Value) {
     }).join().expect("history job"); }));
     let triples = a3.evals;
     acc.merge(a3);
-    let rep = json!({"engine": "H-history-independence", "operations": n, "judged_operations": judged.len(), "depth2_sequences": pairs, "depth3_sub_alphabet": sub.len(), "depth3_judged_operations": judged3.len(), "depth3_sequences": triples,
-                     "oracle": "the outcome of an operation on fresh arguments is the same after every history"});
+    let rep = json!({"engine": "H-history-independence", "operations": n, "judged_operations": judged.len(), "flush_operations": flush.len(), "depth2_sequences": pairs, "depth3_sub_alphabet": sub.len(), "depth3_judged_operations": judged3.len(), "depth3_sequences": triples,
+                     "oracle": "the outcome of an operation on fresh arguments is the same alone (fresh thread) and after every history"});
     (acc, rep)
 }
 
@@ -447,11 +486,18 @@ fn hold_obs<T: PFlavor>(p: &purl::GenericPurl<T>) -> (String, bool, bool) {
     (format!("{text} {:?}", observe(p)), rebuild, reparse)
 }
 
-fn hold_one<T: PFlavor>(prop: &'static str, p: &purl::GenericPurl<T>, y: &Op, xs: &[Op], acc: &mut Acc) {
-    let base = hold_obs(p);
+fn hold_one<T: PFlavor>(prop: &'static str, make: &dyn Fn() -> Option<purl::GenericPurl<T>>, y: &Op, xs: &[Op], flush: &[Op], acc: &mut Acc) -> bool {
+    let mut any = false;
     for x in xs {
+        // the value is obtained anew for every x; then displaced memories, then x, then the examination
+        let Some(p) = make() else { return any };
+        any = true;
+        let base = hold_obs(&p);
+        for f in flush {
+            let _ = run_op(f, acc);
+        }
         let _ = run_op(x, acc);
-        let now = hold_obs(p);
+        let now = hold_obs(&p);
         acc.evals += 1;
         acc.nontrivial += 1;
         let differs = match prop {
@@ -461,66 +507,67 @@ fn hold_one<T: PFlavor>(prop: &'static str, p: &purl::GenericPurl<T>, y: &Op, xs
         };
         acc.sig(&(now.1, now.2, now.0.len().min(30)));
         if differs {
+            let mut h: Vec<Value> = flush.iter().map(Op::to_json).collect();
+            h.push(x.to_json());
             acc.violate(Violation {
                 prop,
                 kind: "held-value-depends-on-history".into(),
-                case: json!({"engine": "history-hold", "op": y.to_json(), "held_across": [x.to_json()]}),
-                detail: format!("a value obtained before an unrelated call and examined after it: (string and accessors, re-build equal, re-parse equal) was {:?}, is {:?}", base, now),
+                case: json!({"engine": "history-hold", "op": y.to_json(), "held_across": h}),
+                detail: format!("a value obtained before unrelated calls and examined after them: (string and accessors, re-build equal, re-parse equal) was {:?}, is {:?}", base, now),
             });
         }
     }
+    any
 }
 
-fn hold_dispatch(prop: &'static str, y: &Op, xs: &[Op], acc: &mut Acc) -> bool {
+fn hold_dispatch(prop: &'static str, y: &Op, xs: &[Op], flush: &[Op], acc: &mut Acc) -> bool {
     match y {
-        Op::Parse(0, s) => {
-            if let Ok(Ok(p)) = guarded(|| <String as PFlavor>::parse(s)) {
-                hold_one(prop, &p, y, xs, acc);
-                return true;
-            }
-        },
+        Op::Parse(0, s) => hold_one::<String>(prop, &|| guarded(|| <String as PFlavor>::parse(s)).ok().and_then(Result::ok), y, xs, flush, acc),
         #[cfg(feature = "smart")]
-        Op::Parse(1, s) => {
-            if let Ok(Ok(p)) = guarded(|| <purl::SmallString as PFlavor>::parse(s)) {
-                hold_one(prop, &p, y, xs, acc);
-                return true;
-            }
-        },
+        Op::Parse(1, s) => hold_one::<purl::SmallString>(prop, &|| guarded(|| <purl::SmallString as PFlavor>::parse(s)).ok().and_then(Result::ok), y, xs, flush, acc),
         #[cfg(feature = "typed")]
-        Op::Parse(2, s) => {
-            if let Ok(Ok(p)) = guarded(|| <purl::PackageType as PFlavor>::parse(s)) {
-                hold_one(prop, &p, y, xs, acc);
-                return true;
-            }
-        },
-        Op::Build("String", spec) => {
-            if let Ok(Built::Ok(p)) = guarded(|| build_with(spec.ty.clone(), spec, &mut Acc::new())) {
-                hold_one(prop, &p, y, xs, acc);
-                return true;
-            }
-        },
+        Op::Parse(2, s) => hold_one::<purl::PackageType>(prop, &|| guarded(|| <purl::PackageType as PFlavor>::parse(s)).ok().and_then(Result::ok), y, xs, flush, acc),
+        Op::Build("String", spec) => hold_one::<String>(
+            prop,
+            &|| match guarded(|| build_with(spec.ty.clone(), spec, &mut Acc::new())) {
+                Ok(Built::Ok(p)) => Some(p),
+                _ => None,
+            },
+            y,
+            xs,
+            flush,
+            acc,
+        ),
         #[cfg(feature = "typed")]
-        Op::Build("PackageType", spec) => {
-            if let Some(pt) = <purl::PackageType as Flavor>::mk(&spec.ty) {
-                if let Ok(Built::Ok(p)) = guarded(|| build_with(pt, spec, &mut Acc::new())) {
-                    hold_one(prop, &p, y, xs, acc);
-                    return true;
+        Op::Build("PackageType", spec) => hold_one::<purl::PackageType>(
+            prop,
+            &|| {
+                let pt = <purl::PackageType as Flavor>::mk(&spec.ty)?;
+                match guarded(|| build_with(pt, spec, &mut Acc::new())) {
+                    Ok(Built::Ok(p)) => Some(p),
+                    _ => None,
                 }
-            }
-        },
-        _ => {},
+            },
+            y,
+            xs,
+            flush,
+            acc,
+        ),
+        _ => false,
     }
-    false
 }
 
 /// Every value the alphabet produces, held across every operation of the alphabet.
 pub fn explore_hold(prop: &'static str, tier: Tier) -> (Acc, Value) {
     let ops = alphabet(tier);
     let n = ops.len();
+    let flush = flush_ops();
     let acc = par_items(n, threads(), |yi, acc| {
         std::thread::scope(|sc| {
             sc.spawn(|| {
-                hold_dispatch(prop, &ops[yi], &ops, acc);
+                // without and with displaced memories
+                hold_dispatch(prop, &ops[yi], &ops, &[], acc);
+                hold_dispatch(prop, &ops[yi], &ops, &flush, acc);
             })
             .join()
             .expect("history job");
@@ -536,7 +583,7 @@ pub fn replay_hold(prop: &'static str, case: &Value) -> Option<Vec<Violation>> {
     let xs: Vec<Op> = case["held_across"].as_array()?.iter().filter_map(Op::from_json).collect();
     std::thread::spawn(move || {
         let mut acc = Acc::new();
-        hold_dispatch(prop, &y, &xs, &mut acc);
+        hold_dispatch(prop, &y, &xs[xs.len().saturating_sub(1)..], &xs[..xs.len().saturating_sub(1)], &mut acc);
         acc.violations
     })
     .join()
@@ -546,12 +593,11 @@ pub fn replay_hold(prop: &'static str, case: &Value) -> Option<Vec<Violation>> {
 pub fn replay(prop: &'static str, case: &Value) -> Option<Vec<Violation>> {
     let y = Op::from_json(&case["op"])?;
     let mut acc = Acc::new();
-    let mut outs = Vec::new();
-    for h in ["history_a", "history_b"] {
-        let xs: Vec<Op> = case[h].as_array()?.iter().filter_map(Op::from_json).collect();
+    let alone = solo(&y);
+    let xs: Vec<Op> = case["history"].as_array()?.iter().filter_map(Op::from_json).collect();
+    let after = {
         let y = y.clone();
-        // each history in a thread of its own (fresh thread-local state, as in the exploration)
-        let o = std::thread::spawn(move || {
+        std::thread::spawn(move || {
             let mut a = Acc::new();
             for x in &xs {
                 let _ = run_op(x, &mut a);
@@ -559,36 +605,93 @@ pub fn replay(prop: &'static str, case: &Value) -> Option<Vec<Violation>> {
             run_op(&y, &mut a)
         })
         .join()
-        .ok()?;
-        outs.push(o);
-    }
-    if outs[0] != outs[1] {
-        acc.violate(Violation { prop, kind: "outcome-depends-on-history".into(), case: case.clone(), detail: format!("after history a: {}; after history b: {}", outs[0], outs[1]) });
-    } else if let Some(upto) = case["prefix"]["upto"].as_u64() {
-        // the whole interleaved prefix of the exploration job
+        .ok()?
+    };
+    if alone != after {
+        acc.violate(Violation { prop, kind: "outcome-depends-on-history".into(), case: case.clone(), detail: format!("alone: {alone}; after the history: {after}") });
+    } else if let (Some(job), Some(upto)) = (case["prefix"]["job"].as_u64(), case["prefix"]["upto"].as_u64()) {
+        // the whole prefix of the exploration job (hidden state accumulated over many operations)
         let tier = if case["prefix"]["tier"] == json!("thorough") { Tier::Thorough } else { Tier::Quick };
-        let ops = alphabet(tier);
-        let y2 = y.clone();
-        let (first, last) = std::thread::spawn(move || {
+        let which_x = case["prefix"]["which"] == json!("x");
+        let last = std::thread::spawn(move || {
+            let ops = alphabet(tier);
+            let flush = flush_ops();
             let mut a = Acc::new();
-            let mut first = None;
+            let yj = &ops[job as usize];
             let mut last = String::new();
-            for x in ops.iter().take(upto as usize + 1) {
-                let _ = run_op(x, &mut a);
-                last = run_op(&y2, &mut a);
-                if first.is_none() {
-                    first = Some(last.clone());
+            for (xi, x) in ops.iter().enumerate().take(upto as usize + 1) {
+                for f in &flush {
+                    let _ = run_op(f, &mut a);
                 }
+                let ox = run_op(x, &mut a);
+                if which_x && xi == upto as usize {
+                    return ox;
+                }
+                last = run_op(yj, &mut a);
             }
-            (first.unwrap_or_default(), last)
+            last
         })
         .join()
         .ok()?;
-        if first != last {
-            acc.violate(Violation { prop, kind: "outcome-depends-on-history".into(), case: case.clone(), detail: format!("after history a: {first}; after the interleaved prefix of {} operations: {last}", upto + 1) });
+        if last != alone {
+            acc.violate(Violation { prop, kind: "outcome-depends-on-history".into(), case: case.clone(), detail: format!("alone: {alone}; after the prefix of the exploration job ({} steps): {last}", upto + 1) });
         }
     }
     Some(acc.violations)
+}
+
+// ------------------------------------------------------------------------------------------------
+// a violation that does not reproduce from its case alone
+
+/// Re-execute `inner` (any replayable case) after the operations of `history`, all in one fresh thread.
+fn after(history: &[Op], inner: &Value, replayer: &(dyn Fn(&Value) -> Option<Vec<Violation>> + Sync)) -> Option<Vec<Violation>> {
+    std::thread::scope(|sc| {
+        sc.spawn(|| {
+            let mut a = Acc::new();
+            for x in history {
+                let _ = run_op(x, &mut a);
+            }
+            guarded(|| replayer(inner)).ok().flatten()
+        })
+        .join()
+        .ok()
+        .flatten()
+    })
+}
+
+/// Search the operation alphabet (and pairs over its failing operations) for a history after which
+/// the case shows its violation twice in a row; the extended case is replayable on its own.
+pub fn context_search(prop: &'static str, case: &Value, replayer: &(dyn Fn(&Value) -> Option<Vec<Violation>> + Sync)) -> Option<Value> {
+    if case["engine"] == json!("after-history") || case["engine"] == json!("history") || case["engine"] == json!("history-hold") {
+        return None;
+    }
+    let ops = alphabet(Tier::Quick);
+    let shows = |h: &[Op]| after(h, case, replayer).map(|vs| vs.iter().any(|v| v.prop == prop)).unwrap_or(false);
+    let found = std::sync::Mutex::new(None::<usize>);
+    par_items(ops.len(), threads(), |i, _| {
+        if found.lock().unwrap().map(|f| f < i).unwrap_or(false) {
+            return;
+        }
+        let h = [ops[i].clone()];
+        if shows(&h) && shows(&h) {
+            let mut g = found.lock().unwrap();
+            if g.map(|f| i < f).unwrap_or(true) {
+                *g = Some(i);
+            }
+        }
+    });
+    let i = found.into_inner().unwrap()?;
+    Some(json!({"engine": "after-history", "history": [ops[i].to_json()], "case": case}))
+}
+
+pub fn replay_after(_prop: &'static str, case: &Value, replayer: &(dyn Fn(&Value) -> Option<Vec<Violation>> + Sync)) -> Option<Vec<Violation>> {
+    let h: Vec<Op> = case["history"].as_array()?.iter().filter_map(Op::from_json).collect();
+    let vs = after(&h, &case["case"], replayer)?;
+    // the violations carry the inner case; report them under the extended one
+    Some(vs.into_iter().map(|mut v| {
+        v.case = case.clone();
+        v
+    }).collect())
 }
 
 #[allow(dead_code)]
